@@ -10,8 +10,12 @@ VERIF_DIR = os.path.dirname(os.path.dirname(os.path.dirname(os.path.abspath(__fi
 PYTHON = '/venv/bin/python' if os.path.exists('/venv/bin/python') else sys.executable
 
 
+_REPO = os.path.abspath(os.environ.get('VERIF_REPO', '/repo'))
+
+
 def repo_dir() -> str:
-    return os.path.abspath(os.environ.get('VERIF_REPO', '/repo'))
+    # fixed at start-up: forked children run with a scrubbed environment
+    return _REPO
 
 
 def meson_py() -> str:
